@@ -41,6 +41,10 @@ def run_sync(ctx, keys_for_pid):
             key = "sync-outcome:%s:%s" % (e["scenario"]["behaviour"], e["outcome"])
             what = "a node offered the tip of a %s peer's chain ended in state '%s' (features %s, error %s), which the specification does not allow" % (
                 e["scenario"]["behaviour"], e["outcome"], json.dumps(e["f"]), e.get("err"))
+        elif tag == "sync-outcome-two-peers":
+            key = "sync-outcome:two-peers:" + e["outcome"]
+            what = "two honest peers: the block of peer T (height %s) started a block synchronisation, the best peer B has height %s; the node ended on '%s' (height %s, error %s) instead of B's chain" % (
+                e["trigger"]["h"], e["best"]["h"], e["outcome"], e["tip"]["h"], e.get("err"))
         elif tag in ("finalized-height-decreased", "finalized-block-replaced"):
             key = tag + ":sync"
             what = "%s during sync: %s" % (tag, json.dumps(e)[:400])
